@@ -224,4 +224,21 @@ theorem feed_eq_call (chunks : List Buf) : ∀ h : Handler, hasFrame h.buf = fal
     simp only [Handler.call] at this
     simp only [this]
 
+/-- any two ways of cutting the same bytes -/
+theorem feed_chunkings_agree (cs1 cs2 : List Buf) (h : Handler) (hf : hasFrame h.buf = false)
+    (he : cs1.flatten = cs2.flatten) (hok : (h.call cs1.flatten).2.2 = none) :
+    h.feed cs1 = h.feed cs2 := by
+  rw [feed_eq_call cs1 h hf hok, feed_eq_call cs2 h hf (he ▸ hok), he]
+
+/-- the bytes written to the transport -/
+def written : List Event → Buf
+  | [] => []
+  | .wrote b :: es => b ++ written es
+  | .deliver _ _ :: es => written es
+
+theorem written_map_wrote (ws : List Buf) : written (ws.map .wrote) = ws.flatten := by
+  induction ws with
+  | nil => rfl
+  | cons w ws ih => simp [written, ih]
+
 end Mpgs.WebSocket
